@@ -61,7 +61,7 @@ M = "filters::network::NetworkFilterMask::"
 
 
 def check(run):
-    for cfg in ("A", "B"):
+    for cfg in run.cfgs("A", "B"):
         F = run.facts(cfg)
         run.guard("C03.1.option-chain", cfg, lambda: rule_chain(run, F, cfg))
         run.guard("C03.2.bit-layout", cfg, lambda: rule_bits(run, F, cfg))
